@@ -212,7 +212,11 @@ func mutateBlock(c *vlib.Ctx, st *ledgerStats, exts []ext, sim *chain.Sim, g *gu
 					if lo2 == nil || !lo2.O.TimedOut {
 						continue
 					}
-					kind, site = fmt.Sprintf("does not return within %v (twice)", deadline), lo.Entry
+					kind = fmt.Sprintf("does not return within %v (twice)", deadline)
+					if site = ledgerSite(lo2.O.Stack); site == "" {
+						site = lo.Entry
+					}
+					lo.O.Stack = lo2.O.Stack
 					st.mu.Lock()
 					st.hung[e.class()] = true
 					st.mu.Unlock()
@@ -315,52 +319,60 @@ func runLedger(c *vlib.Ctx, exts []ext) (*ledgerStats, chain.RunStats) {
 		num   int
 	}
 	runs := []run{
-		{"v1only", chain.AllTemplates, c.Pick(16, 160)},
-		{"mixed", chain.AllTemplates, c.Pick(16, 160)},
-		{"v2only", chain.AllTemplates, c.Pick(16, 160)},
-		{"v1only", []string{"form1", "rev1", "prove1"}, c.Pick(8, 80)},
-		{"v2only", []string{"form2", "rev2", "res2", "renew2"}, c.Pick(8, 80)},
+		{"v1only", chain.AllTemplates, c.Pick(12, 120)},
+		{"mixed", chain.AllTemplates, c.Pick(12, 120)},
+		{"v2only", chain.AllTemplates, c.Pick(12, 120)},
+		{"v1only", []string{"form1", "rev1", "prove1"}, c.Pick(6, 60)},
+		{"v2only", []string{"form2", "rev2", "res2", "renew2"}, c.Pick(6, 60)},
 	}
 	// every block gets 1/stride of its applicable entries; the phase rotates so that all entries are used across blocks
-	stride := c.Pick(6, 2)
+	stride := c.Pick(8, 2)
+	var wg sync.WaitGroup
+	var tmu sync.Mutex
 	for _, rn := range runs {
-		cfg := chain.BaseConfig(c10Shapes()[rn.shape])
-		cfg.Templates = rn.tpl
-		cfg.NoPost = true
-		cfg.MaxReverts = 1
-		opts := chain.RunOpts{Num: rn.num, Depth: 48, Timeout: 15 * time.Minute, Workers: 4,
-			NewSim: func(sim *chain.Sim) {
-				sim.KeepSnapshots = false
-				mu.Lock()
-				guards[sim] = newGuard()
-				keysOf[sim] = keyMap(sim)
-				mu.Unlock()
-			},
-			Hook: func(sim *chain.Sim, beh *chain.Behaviour, i int, s chain.Step, res chain.StepResult) {
-				if s.Op != "block" || s.Verdict != "accept" || !res.Accepted || len(res.Mismatches) > 0 || len(sim.Chain) == 0 {
-					return
-				}
-				mu.Lock()
-				g, keys := guards[sim], keysOf[sim]
-				mu.Unlock()
-				phase := int(nameHash(fmt.Sprint(beh.Hash, "/", i)) % (1 << 20)) // fixed by the behaviour, not by scheduling
-				mutateBlock(c, st, exts, sim, g, keys, cfg, beh, i, s.Txs, stride, phase)
-			},
-		}
-		if len(rn.tpl) < len(chain.AllTemplates) {
-			opts.NoFocus = true
-			cfg.Pay1, cfg.Sizes, cfg.FormRH, cfg.PayAmts, cfg.Fees, cfg.MaxTxns = []int{256411}, []int{200}, [][2]int{{250024, 25}}, []int{599}, []int{0}, 3
-		}
-		rs := chain.Run(c, cfg, opts)
-		total.Behaviours += rs.Behaviours
-		total.Steps += rs.Steps
-		total.Accepted += rs.Accepted
-		total.Rejected += rs.Rejected
-		total.Txs += rs.Txs
-		for k, v := range rs.Tags {
-			total.Tags[k] += v
-		}
+		wg.Add(1)
+		go func(rn run) {
+			defer wg.Done()
+			cfg := chain.BaseConfig(c10Shapes()[rn.shape])
+			cfg.Templates = rn.tpl
+			cfg.NoPost = true
+			cfg.MaxReverts = 1
+			opts := chain.RunOpts{Num: rn.num, Depth: 48, Timeout: 15 * time.Minute, Workers: 3,
+				NewSim: func(sim *chain.Sim) {
+					mu.Lock()
+					guards[sim] = newGuard()
+					keysOf[sim] = keyMap(sim)
+					mu.Unlock()
+				},
+				Hook: func(sim *chain.Sim, beh *chain.Behaviour, i int, s chain.Step, res chain.StepResult) {
+					if s.Op != "block" || s.Verdict != "accept" || !res.Accepted || len(res.Mismatches) > 0 || len(sim.Chain) == 0 {
+						return
+					}
+					mu.Lock()
+					g, keys := guards[sim], keysOf[sim]
+					mu.Unlock()
+					phase := int(nameHash(fmt.Sprint(beh.Hash, "/", i)) % (1 << 20)) // fixed by the behaviour, not by scheduling
+					mutateBlock(c, st, exts, sim, g, keys, cfg, beh, i, s.Txs, stride, phase)
+				},
+			}
+			if len(rn.tpl) < len(chain.AllTemplates) {
+				opts.NoFocus = true
+				cfg.Pay1, cfg.Sizes, cfg.FormRH, cfg.PayAmts, cfg.Fees, cfg.MaxTxns = []int{256411}, []int{200}, [][2]int{{250024, 25}}, []int{599}, []int{0}, 3
+			}
+			rs := chain.Run(c, cfg, opts)
+			tmu.Lock()
+			total.Behaviours += rs.Behaviours
+			total.Steps += rs.Steps
+			total.Accepted += rs.Accepted
+			total.Rejected += rs.Rejected
+			total.Txs += rs.Txs
+			for k, v := range rs.Tags {
+				total.Tags[k] += v
+			}
+			tmu.Unlock()
+		}(rn)
 	}
+	wg.Wait()
 	return st, total
 }
 
